@@ -1,5 +1,5 @@
 (** C04 - the DOCUMENTED ranges of every parameter builder, written by hand from the doc comments,
-    the `# Parameters` tables and the error texts of the anchored files (quoted next to each bound),
+    the range tables of the builders and the error texts of the anchored files (quoted next to each bound),
     and - separately - the exact accept set of the guard on the current tree where it is known to
     differ from the documentation (known findings).
 
